@@ -1,7 +1,7 @@
 (* C05 — concurrency caps: executable interleaving models of
      core/syncx/limit.go, timeoutlimit.go (+ cond.go), rest/handler/maxconnshandler.go   [Lim]
      core/threading/taskrunner.go                                                         [TR]
-     core/syncx/pool.go                                                                   [PL]
+     core/syncx/pool.go (Get keeps the lock across the user's create())                   [PL]
    No proofs in this file.  Threads are scripts of API calls; every call is split into the
    atomic actions of the Go code (one per channel operation / mutex section / callback start
    and end).  [step s x] performs the next atomic action of thread x (x < number of threads)
@@ -215,11 +215,16 @@ Definition rscheduling (s : rstate) : nat :=
 (* PL: Pool                                                             *)
 
 Inductive pop := PGet | PPut | PAdv (d : Z).
-Inductive ppc := PIdle | PWaiting.
+Inductive ppc :=
+| PIdle                 (* between calls *)
+| PEnter                (* Get / Put invoked: about to take the pool lock *)
+| PWaiting              (* Get: in cond.Wait (lock released) *)
+| PCreating (x : nat).  (* Get: inside the user's create(), still HOLDING the pool lock *)
 
 Record pthread := mkPT
   { ppcof : ppc; pscript : list pop; popi : nat;
-    pheld : list nat;        (* resources obtained and not yet put back, most recent first *)
+    pheld : list nat;        (* resources assigned to this user and not yet put back, most recent
+                                first (a resource being created for it is already assigned) *)
     pres : list Z }.         (* per call: Get -> the resource id; Put/Adv -> -1 *)
 
 Record pstate := mkPS
@@ -230,10 +235,11 @@ Record pstate := mkPS
     pnext : nat;                 (* next fresh resource id (create() is the harness's) *)
     psig : nat;                  (* cond signals handed to waiters that have not run yet *)
     pdestroyed : list nat;       (* ghost: resources passed to destroy() *)
-    pthreads : list pthread }.
+    pthreads : list pthread;
+    plocked : bool }.            (* the pool lock is held across a gate (a create() in progress) *)
 
 Definition pinit (n : nat) (maxage : Z) (scripts : list (list pop)) : pstate :=
-  mkPS n maxage 0 [] 1000000 0 0 [] (map (fun sc => mkPT PIdle sc 0 [] []) scripts).
+  mkPS n maxage 0 [] 1000000 0 0 [] (map (fun sc => mkPT PIdle sc 0 [] []) scripts) false.
 
 Definition pcur (th : pthread) := nth_error (pscript th) (popi th).
 Definition pwaiting (s : pstate) : nat :=
@@ -252,21 +258,24 @@ Fixpoint pdrain (maxage now : Z) (idle : list (nat * Z)) (created : nat) (destro
     else (Some x, rest, created, destroyed)
   end.
 
-(* one pass of Get under the lock *)
+(* one pass of Get under the lock: returns an idle resource, or counts a new one and calls
+   create() WITHOUT releasing the lock (PCreating), or waits *)
 Definition pget (s : pstate) (t : nat) (th : pthread) (sig : nat) : pstate :=
   let '(got, idle', created', destroyed') := pdrain (pmaxage s) (pclock s) (pidle s) (pcreated s) (pdestroyed s) in
   match got with
   | Some x =>
     mkPS (plimit s) (pmaxage s) created' idle' (pclock s) (pnext s) sig destroyed'
          (upd_nth (pthreads s) t (mkPT PIdle (pscript th) (S (popi th)) (x :: pheld th) (pres th ++ [Z.of_nat x])))
+         false
   | None =>
     if Nat.ltb created' (plimit s) then
       mkPS (plimit s) (pmaxage s) (S created') idle' (pclock s) (S (pnext s)) sig destroyed'
-           (upd_nth (pthreads s) t (mkPT PIdle (pscript th) (S (popi th)) (pnext s :: pheld th)
-                                         (pres th ++ [Z.of_nat (pnext s)])))
+           (upd_nth (pthreads s) t (mkPT (PCreating (pnext s)) (pscript th) (popi th) (pnext s :: pheld th) (pres th)))
+           true
     else
       mkPS (plimit s) (pmaxage s) created' idle' (pclock s) (pnext s) sig destroyed'
            (upd_nth (pthreads s) t (mkPT PWaiting (pscript th) (popi th) (pheld th) (pres th)))
+           false
   end.
 
 Definition pstep (s : pstate) (t : nat) : option pstate :=
@@ -275,22 +284,33 @@ Definition pstep (s : pstate) (t : nat) : option pstate :=
     match pcur th with
     | Some o =>
       let fin := mkPT PIdle (pscript th) (S (popi th)) in
+      let same th' lk := mkPS (plimit s) (pmaxage s) (pcreated s) (pidle s) (pclock s) (pnext s) (psig s)
+                              (pdestroyed s) (upd_nth (pthreads s) t th') lk in
       match ppcof th, o with
-      | PIdle, PGet => Some (pget s t th (psig s))
-      | PWaiting, _ => if Nat.ltb 0 (psig s) then Some (pget s t th (pred (psig s))) else None
+      | PIdle, PAdv d =>
+        Some (mkPS (plimit s) (pmaxage s) (pcreated s) (pidle s) (pclock s + Z.max 0 d)%Z (pnext s) (psig s)
+                   (pdestroyed s) (upd_nth (pthreads s) t (fin (pheld th) (pres th ++ [(-1)%Z]))) (plocked s))
       | PIdle, PPut =>
+        match pheld th with
+        | [] => Some (same (fin [] (pres th ++ [(-1)%Z])) (plocked s))   (* nothing to put: Put is not called *)
+        | _ => Some (same (mkPT PEnter (pscript th) (popi th) (pheld th) (pres th)) (plocked s))
+        end
+      | PIdle, PGet => Some (same (mkPT PEnter (pscript th) (popi th) (pheld th) (pres th)) (plocked s))
+      | PEnter, PPut =>
+        if plocked s then None else
         match pheld th with
         | x :: rest =>
           let sig' := if Nat.ltb (psig s) (pwaiting s) then S (psig s) else psig s in
           Some (mkPS (plimit s) (pmaxage s) (pcreated s) ((x, pclock s) :: pidle s) (pclock s) (pnext s)
-                     sig' (pdestroyed s) (upd_nth (pthreads s) t (fin rest (pres th ++ [(-1)%Z]))))
-        | [] =>
-          Some (mkPS (plimit s) (pmaxage s) (pcreated s) (pidle s) (pclock s) (pnext s) (psig s)
-                     (pdestroyed s) (upd_nth (pthreads s) t (fin [] (pres th ++ [(-1)%Z]))))
+                     sig' (pdestroyed s) (upd_nth (pthreads s) t (fin rest (pres th ++ [(-1)%Z]))) false)
+        | [] => Some (same (fin [] (pres th ++ [(-1)%Z])) false)
         end
-      | PIdle, PAdv d =>
-        Some (mkPS (plimit s) (pmaxage s) (pcreated s) (pidle s) (pclock s + Z.max 0 d)%Z (pnext s) (psig s)
-                   (pdestroyed s) (upd_nth (pthreads s) t (fin (pheld th) (pres th ++ [(-1)%Z]))))
+      | PEnter, _ => if plocked s then None else Some (pget s t th (psig s))
+      | PWaiting, _ =>
+        if plocked s then None else
+        if Nat.ltb 0 (psig s) then Some (pget s t th (pred (psig s))) else None
+      | PCreating x, _ =>     (* create() returns; Get returns the new resource and unlocks *)
+        Some (same (fin (pheld th) (pres th ++ [Z.of_nat x])) false)
       end
     | None => None
     end
@@ -305,3 +325,6 @@ Definition pheldcount (s : pstate) : nat := sumf (fun th => length (pheld th)) (
 Definition pholders (x : nat) (s : pstate) : nat :=
   sumf (fun th => count_occ Nat.eq_dec (pheld th) x) (pthreads s).
 Definition pidle_count (x : nat) (s : pstate) : nat := count_occ Nat.eq_dec (map fst (pidle s)) x.
+(* a create() is in progress *)
+Definition pcreating (s : pstate) : nat :=
+  sumf (fun th => match ppcof th with PCreating _ => 1 | _ => 0 end) (pthreads s).
